@@ -220,22 +220,22 @@ func runC01(c *core.Ctx) {
 	}
 	stateWriters := map[string]map[string]string{
 		"Round": {
-			iN + "Instance.bumpToRound":                          "the only round setter of the instance",
+			iN + "Instance.bumpToRound":                              "the only round setter of the instance",
 			"ssv/protocol/v2/qbft/controller.Controller.UponDecided": "adopts the round of a validated decided certificate",
 		},
 		"ProposalAcceptedForCurrentRound": {
-			iN + "Instance.uponProposal":                "accepts a validated proposal",
+			iN + "Instance.uponProposal":                 "accepts a validated proposal",
 			iN + "Instance.uponChangeRoundPartialQuorum": "cleared on round bump",
-			iN + "Instance.UponRoundTimeout":            "cleared on timeout",
+			iN + "Instance.UponRoundTimeout":             "cleared on timeout",
 		},
 		"LastPreparedRound": {iN + "Instance.uponPrepare": "prepare quorum"},
 		"LastPreparedValue": {iN + "Instance.uponPrepare": "prepare quorum"},
 		"Decided": {
-			iN + "Instance.ProcessMsg":                            "commit quorum",
+			iN + "Instance.ProcessMsg":                               "commit quorum",
 			"ssv/protocol/v2/qbft/controller.Controller.UponDecided": "validated decided certificate",
 		},
 		"DecidedValue": {
-			iN + "Instance.ProcessMsg":                            "commit quorum",
+			iN + "Instance.ProcessMsg":                               "commit quorum",
 			"ssv/protocol/v2/qbft/controller.Controller.UponDecided": "validated decided certificate",
 		},
 		"Height": {iN + "Instance.Start": "set once at start"},
@@ -246,10 +246,10 @@ func runC01(c *core.Ctx) {
 	}
 	c.Min("C01-R5", nw, 12, "writes of protocol state fields")
 	bumps := map[string]string{
-		iN + "Instance.Start":                       "first round",
-		iN + "Instance.uponProposal":                "round of the accepted (justified) proposal",
+		iN + "Instance.Start":                        "first round",
+		iN + "Instance.uponProposal":                 "round of the accepted (justified) proposal",
 		iN + "Instance.uponChangeRoundPartialQuorum": "f+1 round changes",
-		iN + "Instance.UponRoundTimeout":            "timeout",
+		iN + "Instance.UponRoundTimeout":             "timeout",
 	}
 	if bf, err := c.P.LookupFunc(instPkg + ".(*Instance).bumpToRound"); err == nil {
 		whoMayCall(c, "C01-R5", "Instance.bumpToRound", map[*types.Func]bool{bf: true}, nil, bumps)
